@@ -1,5 +1,5 @@
 """C18 — A message profile replaces the standard structure wherever it speaks."""
-import json
+import json, random
 import vlib, gen, impl, profiles
 from props.c01 import VERSIONS, excluded
 
@@ -288,6 +288,33 @@ def creation(job):
     return bad
 
 
+def dup_later(job):
+    """(version, structure, child): the structure names `child` twice at its top level; a profile makes only the LATER entry required;
+    an instance without that child is then reported as missing it (the profile speaks through every entry — seed C18-j kept the first per name)"""
+    import hl7apy
+    from hl7apy.parser import parse_message
+    v, st, child = job
+    try:
+        lib = hl7apy.load_library(v)
+        ref = lib.MESSAGES[st]
+        rows = list(ref[1])
+        idx = [i for i, r in enumerate(rows) if gen.is_seq(r) and len(r) == 4 and r[0] == child]
+        last = idx[-1]
+        rows[last] = (rows[last][0], rows[last][1], (1, rows[last][2][1] if rows[last][2][1] != 0 else 1), rows[last][3])
+        prof = {st: (ref[0], tuple(rows))}
+        g = gen.ConfGen(random.Random(7), version=v)
+        t, _, names = g.conf_message(st, 'required')
+        if child in names:
+            return 'skip'
+        m = parse_message(t, validation_level=vlib.level(False), message_profile=prof, find_groups=False)
+        errs = [impl.canon_err(x) for x in m.validate(return_errors=True).errors]
+        m0 = parse_message(t, validation_level=vlib.level(False), find_groups=False)
+        errs0 = [impl.canon_err(x) for x in m0.validate(return_errors=True).errors]
+        return 'ok ' + json.dumps([('missing:%s.%s' % (st, child)) in errs, ('missing:%s.%s' % (st, child)) in errs0, errs[:6]])
+    except Exception as e:  # noqa
+        return 'exc ' + vlib.exc_name(e)
+
+
 def shipped(_):
     """the profiles shipped with the repository's tests: selection clauses on real pickled profiles"""
     import os, hl7apy
@@ -479,6 +506,35 @@ def run(tier, seed):
                             'by_value_assignment': r2[-400:], 'by_parse_message': r[-400:], **mt},
                      {'text': j[0], 'strict': j[1], 'find_groups': j[2], 'spec': list(j[3]), 'route': 'value'})
     chk.dist['value_assignment_route'] = len(vjobs)
+    # oracle: a profile that speaks through the LATER of two entries of one name
+    djobs = []
+    for v in VERSIONS:
+        if v == '2.1':
+            continue
+        lib = hl7apy.load_library(v)
+        for st in sorted(k for k in lib.MESSAGES if k == k.upper()):
+            ref = lib.MESSAGES[st]
+            if not (gen.is_seq(ref) and len(ref) >= 2 and gen.is_seq(ref[1])):
+                continue
+            nm = [r[0] for r in ref[1] if gen.is_seq(r) and len(r) == 4 and r[3] == 'SEG']
+            for c in sorted({x for x in nm if nm.count(x) > 1}):
+                last = [r for r in ref[1] if gen.is_seq(r) and len(r) == 4 and r[0] == c][-1]
+                if gen.is_seq(last[2]) and len(last[2]) == 2 and last[2][0] == 0:
+                    djobs.append((v, st, c))
+    djobs = rng.sample(djobs, min(len(djobs), 12 if tier == 'quick' else len(djobs)))
+    for j, o in zip(djobs, vlib.pmap(dup_later, djobs, chunk=2)):
+        chk.evals += 1
+        if o.startswith('ok '):
+            with_prof, without, errs = json.loads(o[3:])
+            if not with_prof or without:
+                chk.fail(None, {'clause': 'validate() judges by every entry of the profile, also the later of two entries naming the same child',
+                                'version': j[0], 'structure': j[1], 'child': j[2], 'reported_with_profile': with_prof, 'reported_without': without, 'errors': errs},
+                         {'dup_later': list(j)})
+            else:
+                chk.nontrivial.add(('dup_later',) + tuple(j))
+        elif o != 'skip':
+            chk.notes.append('dup_later %s: %s' % (j, o))
+    chk.dist['later_entry_of_a_repeated_name'] = len(djobs)
     # oracle: creation paths under Message(structure, reference=profile)
     cres = vlib.pmap(creation, cjobs, chunk=8)
     for cj, bad in zip(cjobs, cres):
